@@ -503,3 +503,128 @@ func runC06Generator(p *Prog, r *Report) {
 	r.ExpectMin("C06.generator-constructors", len(ctors), 1)
 	r.Clauses = append(r.Clauses, "C06 methods of the snippet generator never start a fresh generator for a nested snippet")
 }
+
+// C06.discarded-fragments — a snippet generator that threads a running placeholder counter
+// through nested generators (`last = nested.NextPlaceholder`) may number a returned snippet
+// from that running counter only if the snippet also contains the nested fragments that
+// advanced it. A fallback snippet that drops the fragments collected so far must number from
+// the function's own start value, otherwise the tab stops of the result skip numbers.
+func runC06Fragments(p *Prog, r *Report) {
+	nFuncs, nLits := 0, 0
+	for _, fn := range p.Funcs {
+		if fn.Body == nil || fn.Lit != nil || fn.Obj == nil {
+			continue
+		}
+		info := fn.Info()
+		counters := map[types.Object]bool{}
+		frags := map[types.Object]bool{}
+		ast.Inspect(fn.Body, func(m ast.Node) bool {
+			as, ok := m.(*ast.AssignStmt)
+			if !ok || len(as.Lhs) != len(as.Rhs) {
+				return true
+			}
+			for i, l := range as.Lhs {
+				rhs := ast.Unparen(as.Rhs[i])
+				// xs = append(xs, nested.Snippet)
+				if c, ok := rhs.(*ast.CallExpr); ok && isBuiltinCall(info, c, "append") && len(c.Args) >= 2 {
+					for _, a := range c.Args[1:] {
+						if s, ok := ast.Unparen(a).(*ast.SelectorExpr); ok && s.Sel.Name == "Snippet" {
+							if o := baseObj(info, l); o != nil {
+								frags[o] = true
+							}
+						}
+					}
+				}
+				sel, ok := rhs.(*ast.SelectorExpr)
+				if !ok {
+					continue
+				}
+				o := baseObj(info, l)
+				if o == nil {
+					continue
+				}
+				if v, isVar := o.(*types.Var); !isVar || v.IsField() {
+					continue
+				}
+				switch sel.Sel.Name {
+				case "NextPlaceholder":
+					if _, plain := ast.Unparen(l).(*ast.Ident); plain {
+						counters[o] = true
+					}
+				case "Snippet":
+					frags[o] = true
+				}
+			}
+			return true
+		})
+		if len(counters) == 0 {
+			continue
+		}
+		nFuncs++
+		mentions := func(e ast.Expr, set map[types.Object]bool, depth int) bool {
+			var rec func(e ast.Expr, d int) bool
+			rec = func(e ast.Expr, d int) bool {
+				hit := false
+				ast.Inspect(e, func(z ast.Node) bool {
+					if hit {
+						return false
+					}
+					if s, ok := z.(*ast.SelectorExpr); ok && set != nil && s.Sel.Name == "Snippet" && len(set) > 0 && set[nil] {
+						hit = true
+					}
+					if id, ok := z.(*ast.Ident); ok {
+						o := info.ObjectOf(id)
+						if set[o] {
+							hit = true
+						} else if d > 0 {
+							if def := fn.SingleDef(o); def != nil && rec(def, d-1) {
+								hit = true
+							}
+						}
+					}
+					return !hit
+				})
+				return hit
+			}
+			return rec(e, depth)
+		}
+		ord := 0
+		ast.Inspect(fn.Body, func(m ast.Node) bool {
+			cl, ok := m.(*ast.CompositeLit)
+			if !ok {
+				return true
+			}
+			if tv := info.TypeOf(cl); tv == nil || !typeIs(tv, "hcl-lang/schema", "CompletionData") {
+				return true
+			}
+			sn := litField(cl, "Snippet")
+			if sn == nil {
+				return true
+			}
+			nLits++
+			ord++
+			key := fmt.Sprintf("CompletionData{…}#%d", ord)
+			usesCounter := mentions(sn, counters, 2)
+			directFrag := false
+			ast.Inspect(sn, func(z ast.Node) bool {
+				if s, ok := z.(*ast.SelectorExpr); ok && s.Sel.Name == "Snippet" {
+					directFrag = true
+				}
+				return true
+			})
+			hasFrag := directFrag || mentions(sn, frags, 2)
+			switch {
+			case usesCounter && !hasFrag:
+				r.Add("C06.discarded-fragments", fn.Name, key, p.Pos(cl), Violated,
+					"the snippet is numbered from the running placeholder counter but does not contain the nested fragments that advanced it: the tab stops of the result skip the numbers those fragments used", true)
+			default:
+				r.Add("C06.discarded-fragments", fn.Name, key, p.Pos(cl), OK, "numbered from the start value, or contains the fragments counted so far", false)
+			}
+			return true
+		})
+	}
+	r.Counts["C06.generators-with-running-counter"] = nFuncs
+	r.Counts["C06.generator-snippets"] = nLits
+	r.ExpectMin("C06.generators-with-running-counter", nFuncs, 2)
+	r.Clauses = append(r.Clauses, "C06.discarded-fragments: a snippet numbered from a running placeholder counter contains the nested fragments that advanced the counter")
+}
